@@ -582,6 +582,7 @@ var expFlags struct {
 	entry    string
 	failsets string
 	caches   string
+	ids      string
 }
 
 func init() {
@@ -596,6 +597,7 @@ func init() {
 			fs.StringVar(&expFlags.entry, "entry", "ExpandSpec", "entry point")
 			fs.StringVar(&expFlags.failsets, "failsets", "none", "comma list of sets (a+b) of documents the loader refuses")
 			fs.StringVar(&expFlags.caches, "caches", "none", "comma list of cache modes: none,fresh,reuse,preload:0+1")
+			fs.StringVar(&expFlags.ids, "ids", "", "comma list of id classes given (in rotation) to the structured schemas: abs,relfile,reldir,frag")
 		},
 		run:     expRun,
 		init:    expInit,
@@ -660,6 +662,23 @@ func expandCaseLine(line []byte) ([]*expCase, error) {
 	return cross(caseCounter, nodes), nil
 }
 
+// withIDs gives every structured schema node an id of the listed classes, in rotation.
+func withIDs(nodes []absNode, rot int) []absNode {
+	if expFlags.ids == "" {
+		return nodes
+	}
+	classes := strings.Split(expFlags.ids, ",")
+	out := append([]absNode(nil), nodes...)
+	k := 0
+	for i := range out {
+		if out[i].Kind == "s" && out[i].T == "st" {
+			out[i].ID = classes[(rot+k)%len(classes)]
+			k++
+		}
+	}
+	return out
+}
+
 func cross(id int, nodes []absNode) []*expCase {
 	var out []*expCase
 	for _, lay := range strings.Split(expFlags.layouts, ",") {
@@ -668,7 +687,7 @@ func cross(id int, nodes []absNode) []*expCase {
 				rot, _ := strconv.Atoi(r)
 				for _, fsx0 := range crossTail() {
 					fsx, entry, cache := fsx0[0], fsx0[1], fsx0[2]
-					c := &expCase{Case: id, Nodes: nodes, Layout: strings.Split(lay, "+"), Rot: rot,
+					c := &expCase{Case: id, Nodes: withIDs(nodes, rot), Layout: strings.Split(lay, "+"), Rot: rot,
 						Entry: entry, Reps: expFlags.reps, Names: expFlags.names, Spell: expFlags.spell}
 					if strings.HasPrefix(cache, "preload:") {
 						c.Cache = "preload"
